@@ -6,7 +6,7 @@ P3 wrappers: buffer_end, lengths, NUL, '-', value handed to convert; dispatchers
    negative variant exactly for value < 0 and the width by sizeof"""
 import os
 
-from ..digits import Machine, Sym, Return, Unsupported, length_partition, UINT_BITS, SINT_BITS, base_type
+from ..digits import Machine, Lossy, Sym, Return, Unsupported, length_partition, UINT_BITS, SINT_BITS, base_type
 from ..facts import VERIF, load_program, units_matching, children, strip_all_casts, walk, CALL_KINDS, \
     AnalysisBroken
 from ..boolshape import Interp, NeedAtom
@@ -93,6 +93,7 @@ def p2p3(chk, prog, lens):
                   f.loc())
         for L in range(1, MAXLEN[bits] + 1):
             m = Machine(prog, L, None)
+            m.val_bits = bits
             env = {}
             for p in f.params:
                 if p['t'] == 'char *':
@@ -108,6 +109,10 @@ def p2p3(chk, prog, lens):
                 ret = r.v
             except Unsupported as u:
                 raise AnalysisBroken('%s (L=%d): not interpretable: %s' % (f.key, L, u))
+            except Lossy as e:
+                chk.check(False, 'P2', f.name, 'the value is never converted to a type that cannot hold it [%s%d digits]'
+                          % ('grouped ' if grouped else '', L), f.loc(), str(e))
+                continue
             sym = 'abs(value)' if neg else 'value'
             what = '%s, %d digits' % ('grouped ' if grouped else '' + ('negative' if neg else 'unsigned'), L)
             exp = expected_cells(sym, L, grouped, neg)
